@@ -122,7 +122,7 @@ def check(ctx, replay=None):
         env = PROC_ENVS[(k // 2) % len(PROC_ENVS)]
         # ... nor is the execution domain (every sixth process runs under `setarch i686`: uname(2) reports a 32-bit machine)
         wrap = ["setarch", "i686"] if (k % 6 == 5 and shutil.which("setarch")) else []
-        rc, rep, races, err = run_json(ctx, wrap + [plain if k % 8 else race_bin, "-mode", "digest"], env=env, cwd="/" if k % 3 == 0 else None)
+        rc, rep, races, err = run_json(ctx, wrap + [plain if k % 8 else race_bin, "-mode", "digest", "-order", str(ctx.seed * 1000 + k)], env=env, cwd="/" if k % 3 == 0 else None)
         if rep is None:
             raise vlib.Machinery("detrace digest failed: " + err[-1500:])
         digs.add(rep["digest"])
